@@ -208,7 +208,8 @@ func (c *WSClient) connect() error {
 		return err
 	}
 
-	c.session = c.ConnectionFactory.NewSession(connection)
+	session := c.ConnectionFactory.NewSession(connection)
+	c.session = session
 
 	go func() {
 		// There is a race condition where session is set to nil before
@@ -228,7 +229,7 @@ func (c *WSClient) connect() error {
 		// sufficient for most cases where the client cares only about sending.
 		// If the client really cares about handling reads, they will define a
 		// custom ReadHandler that will receive the error synchronously.
-		if err := c.session.Connection.Listen(); err != nil {
+		if err := session.Connection.Listen(); err != nil {
 			c.setErr(err)
 		}
 
@@ -314,7 +315,7 @@ func (c *WSClient) Send(e protocol.ChunkEncoder) error {
 	verifAt("send.checked", c)
 	// Write function does not accurately return the number of bytes written
 	// so it would be ineffective to compare
-	_, err = c.session.Connection.Write(bytesData)
+	_, err = session.Connection.Write(bytesData)
 
 	return err
 }
